@@ -28,6 +28,10 @@ const DOCS: &[&str] = &[
     "a: xé",
     "- 日本",
     "k: 😀",
+    // a document closed with `...` and a trailer the parser has to scan past its look-ahead (faults and caps inside it)
+    "- 1\n- 2\n...\n# trailing comment, longer than the scanner's look-ahead of sixteen characters\n",
+    "a: 1\nb: [1, 2]\n...\n\n\n\n\n\n\n\n\n\n\n\n\n\n\n\n\n\n\n\n\n",
+    "a: 1\nb: [1, 2]\n... # closing\n# more\n# and more comment lines after the end marker\n",
 ];
 
 const KINDS: [io::ErrorKind; 4] = [io::ErrorKind::Other, io::ErrorKind::BrokenPipe, io::ErrorKind::InvalidData, io::ErrorKind::UnexpectedEof];
@@ -90,6 +94,8 @@ struct Inner {
 #[derive(Serialize)]
 struct Out {
     name: String,
+    speed: serde_saphyr::Commented<f64>,
+    label: serde_saphyr::Commented<String>,
     items: Vec<Inner>,
     note: serde_saphyr::SpaceAfter<serde_saphyr::LitString>,
     tail: Vec<i32>,
@@ -270,6 +276,8 @@ pub fn run(ctx: &mut Ctx) {
     // ---- S3: writer faults
     let value = Out {
         name: "config \"x\"".into(),
+        speed: serde_saphyr::Commented(0.5, "fraction of c".into()),
+        label: serde_saphyr::Commented("plain".into(), "a comment with # and : inside".into()),
         items: vec![Inner { x: 1, s: "a: b".into() }, Inner { x: -2, s: "multi\nline\n".into() }],
         note: serde_saphyr::SpaceAfter(serde_saphyr::LitString("line1\nline2\n".into())),
         tail: vec![1, 2, 3],
